@@ -15,6 +15,14 @@ fn usage() -> ! {
 
 fn main() {
     engine::install_panic_hook();
+    // use every file descriptor the environment allows (many short-lived runtimes per second)
+    unsafe {
+        let mut lim = libc::rlimit { rlim_cur: 0, rlim_max: 0 };
+        if libc::getrlimit(libc::RLIMIT_NOFILE, &mut lim) == 0 && lim.rlim_cur < lim.rlim_max {
+            lim.rlim_cur = lim.rlim_max;
+            let _ = libc::setrlimit(libc::RLIMIT_NOFILE, &lim);
+        }
+    }
     let args: Vec<String> = std::env::args().collect();
     if args.len() < 2 {
         usage();
@@ -26,6 +34,70 @@ fn main() {
     let env_seed = std::env::var("VERIF_SEED").ok().and_then(|s| s.trim().parse::<i64>().ok()).map(|v| v as u64);
     let env_tier = std::env::var("VERIF_TIER").ok();
     match args[1].as_str() {
+        "fdtest" => {
+            // diagnostic: which construction leaks file descriptors across cases?
+            let count = || std::fs::read_dir("/proc/self/fd").map(|d| d.count()).unwrap_or(0);
+            let mode = args.get(2).cloned().unwrap_or_default();
+            let f0 = count();
+            for i in 0..60u8 {
+                let rt = engine::paused_rt();
+                rt.block_on(async {
+                    use vcheck::memnet::*;
+                    if mode == "rt" {
+                        return;
+                    }
+                    let hub = Hub::new(1, 0);
+                    if mode == "th" {
+                        let tid = hex::encode([i; 32]);
+                        let th = std::sync::Arc::new(saorsa_core::transport_handle::TransportHandle::verif_new_mem(tid.clone(), tid.clone(), hub.clone(), std::time::Duration::from_secs(2)));
+                        if args.get(3).is_some() {
+                            let _ = th.start_network_listeners().await;
+                        }
+                        return;
+                    }
+                    if mode == "mgr-new" || mode == "mgr-new-shutdown" {
+                        let tid = hex::encode([i; 32]);
+                        let th = std::sync::Arc::new(saorsa_core::transport_handle::TransportHandle::verif_new_mem(tid.clone(), tid.clone(), hub.clone(), std::time::Duration::from_secs(2)));
+                        let mut cfg = saorsa_core::dht_network_manager::DhtNetworkConfig::default();
+                        cfg.local_peer_id = tid.clone();
+                        let m = saorsa_core::dht_network_manager::DhtNetworkManager::new(th, None, cfg).await.unwrap();
+                        if mode == "mgr-new-shutdown" {
+                            m.verif_core().read().await.signal_shutdown();
+                            tokio::time::sleep(std::time::Duration::from_secs(120)).await;
+                        }
+                        return;
+                    }
+                    if mode == "nostart" || mode == "start" || mode == "start-stop" {
+                        let tid = hex::encode([i; 32]);
+                        let th = std::sync::Arc::new(saorsa_core::transport_handle::TransportHandle::verif_new_mem(tid.clone(), tid.clone(), hub.clone(), std::time::Duration::from_secs(2)));
+                        hub.register(&tid, node_addr(0), Some(th.clone()), None);
+                        let _ = th.start_network_listeners().await;
+                        let mut cfg = saorsa_core::dht_network_manager::DhtNetworkConfig::default();
+                        cfg.local_peer_id = tid.clone();
+                        let m = std::sync::Arc::new(saorsa_core::dht_network_manager::DhtNetworkManager::new(th, None, cfg).await.unwrap());
+                        if mode != "nostart" {
+                            m.start().await.unwrap();
+                        }
+                        if mode == "start-stop" {
+                            let _ = tokio::time::timeout(std::time::Duration::from_secs(60), m.stop()).await;
+                        }
+                        return;
+                    }
+                    if mode == "core" {
+                        let e = saorsa_core::dht::core_engine::DhtCoreEngine::verif_new_log_only(saorsa_core::dht::core_engine::NodeId::from_bytes([i; 32])).unwrap();
+                        e.start_maintenance_tasks();
+                        return;
+                    }
+                    let n = add_node(&hub, [i; 32], node_addr(0), None, std::time::Duration::from_secs(2), 8).await.unwrap();
+                    if mode == "node+stop" {
+                        let _ = n.mgr.stop().await;
+                        let _ = n.th.stop().await;
+                    }
+                });
+                drop(rt);
+            }
+            println!("mode={mode} fds before={f0} after={}", count());
+        }
         "list" => {
             for (id, _, _, _) in props::REGISTRY {
                 println!("{id}");
